@@ -1,8 +1,10 @@
 """C05 binder: bounds, shapely conversion, geometric features, anchor points.  Encoder only -- the verdict is T_GeomFeatures's.
 
-A case is {"g": {"type": kind, "coordinates": nested integer ticks}} (time ticks of a dyadic unit, frequency ticks of
-1000 Hz).  For each of three exact time units the binder builds the real geometry, calls the four public functions and
-writes down what they returned, as integers.  It computes no expected value.
+A case is a HISTORY {"gs": [{"type": kind, "coordinates": nested integer ticks}, ...]} (time ticks of a dyadic unit,
+frequency ticks of 1000 Hz): geometries to be handled one after the other IN THIS PROCESS (most histories have one
+member; the others are regroupings of one vertex sequence, so anything the library carries over from one conversion to
+the next shows).  For each member, in order, and each of three exact time units the binder builds the real geometry,
+calls the four public functions and writes down what they returned, as integers.  It computes no expected value.
 """
 from soundevent import terms
 from soundevent.geometry import (
@@ -26,12 +28,15 @@ POOL = 12
 CHUNK = 1500
 RULE = ("one case per geometry of the TLA+ universe (all stamps / intervals / points / boxes incl. zero extent on time 0..4 x "
         "frequency {0,1,2,3,FMAX}; 2- and 3-point lines; multi-points; rectangles cw/ccw open/closed, triangles, L-shapes, "
-        "degenerate rings, polygons with one and two holes; multi-lines and multi-polygons of 1..3 members) plus random "
-        "geometries on a 1000 x 5000 lattice; each run at 3 exact time units, all 11 positions; non-trivial = not a bare time stamp")
+        "degenerate rings, polygons with one and two holes; multi-lines and multi-polygons of 1..3 members), as histories of "
+        "length 1, plus every ordered pair of regroupings of one vertex sequence (multi-lines of 4..6 points, a six-point ring vs "
+        "shell + hole, nested rings grouped into polygons) converted one after the other in one process, plus random geometries "
+        "and random regrouping histories on a 1000 x 5000 lattice; each member run at 3 exact time units, all 11 positions; "
+        "non-trivial = not a bare time stamp")
 TRUSTED_BASE = ["checks/c05.py + vt/geom.py (build objects on dyadic units; read bounds / shapely coordinates / feature values / "
                 "points back as exact integer ticks, centroid and point_on_surface as exact limb numbers)"]
 ASSUMPTIONS = ["dyadic time units and a 1000 Hz frequency tick make every float operation of the implementation exact",
-               "geometries are valid and in normal form (as every constructed object is); polygon rings are simple, holes lie inside the shell",
+               "geometries are valid and in normal form (as every constructed object is); polygon rings are simple, holes lie inside the shell and not inside one another",
                "rings are compared as closed curves (closing repetitions, start point and direction are not demanded)",
                "the shapely kind is demanded only for the six kinds that have a shapely namesake"]
 
@@ -128,7 +133,8 @@ def _run(g, tu):
 
 
 def execute(case):
-    return {"runs": [_run(case["g"], tu) for tu in TIME_UNITS]}
+    # in order, in this process: member i is completely handled (all units) before member i + 1 is built
+    return {"steps": [{"runs": [_run(g, tu) for tu in TIME_UNITS]} for g in case["gs"]]}
 
 
 # ----------------------------------------------------------------------------- random geometries on a larger lattice
@@ -212,11 +218,48 @@ def random_cases(rng, tier):
             c = [_fwd_line(rng) for _ in range(rng.randint(1, 4))]
         else:
             c = [_poly(rng) for _ in range(rng.randint(1, 3))]
-        yield {"g": {"type": k, "coordinates": c}}
+        yield {"gs": [{"type": k, "coordinates": c}]}
+    # histories: random regroupings of one forward-running vertex sequence / of one list of nested rings
+    for _ in range(n // 4):
+        if rng.random() < 0.6:
+            m = rng.randint(5, 9)
+            ts = sorted(rng.sample(range(0, TMAX + 1), m))
+            pts = [[t, _rp(rng)[1]] for t in ts]
+            gs = [{"type": "MultiLineString", "coordinates": _cut(rng, pts, 2)} for _ in range(rng.randint(2, 4))]
+            gs.append({"type": "MultiLineString", "coordinates": [_copy(pts)]})
+        else:
+            rings = _rect_with_holes(rng)               # a shell and 0..2 holes inside it
+            while len(rings) < 2:
+                rings = _rect_with_holes(rng)
+            ks = rng.sample(range(1, len(rings) + 1), min(len(rings), rng.randint(2, 3)))
+            # holes stay with the shell or stand alone: [[shell, h1, h2]] / [[shell, h1], [h2]] / [[shell], [h1], [h2]]
+            gs = [{"type": "MultiPolygon", "coordinates": [_copy(rings[:k])] + [[_copy(r)] for r in rings[k:]]} for k in ks]
+        yield {"gs": gs}
+
+
+def _copy(x):
+    return [_copy(y) for y in x] if isinstance(x, list) else x
+
+
+def _cut(rng, xs, least):
+    """cut a list into consecutive blocks of at least `least` items, at random."""
+    sizes, left = [], len(xs)
+    while left > 0:
+        k = rng.randint(least, min(left, least + 2))
+        if left - k < least:
+            k = left
+        sizes.append(k)
+        left -= k
+    rng.shuffle(sizes)
+    out, i = [], 0
+    for k in sizes:
+        out.append(_copy(xs[i:i + k]))
+        i += k
+    return out
 
 
 def nontrivial(o):
-    return o["in"]["g"]["type"] != "TimeStamp"
+    return any(g["type"] != "TimeStamp" for g in o["in"]["gs"])
 
 
 MANIFEST = {
@@ -227,7 +270,9 @@ MANIFEST = {
              "plus the consistency laws (ordering, duration/bandwidth identities, every anchor on the bounds, the nine names pairwise "
              "consistent, bounds recomputed from the raw tokens) for every geometry of a bounded universe of all nine kinds "
              "(zero-extent boxes, cw/ccw open/closed rings, L-shapes, degenerate rings, holes, multi-geometries of 1..3 parts). "
-             "Every geometry is then built for real at three dyadic time units; compute_bounds, geometry_to_shapely (every coordinate "
+             "Histories -- regroupings of one vertex sequence converted one after the other, with no state carried over in Impl -- "
+             "show anything the library keeps between conversions. Every geometry is then built for real, in history order within "
+             "one process, at three dyadic time units; compute_bounds, geometry_to_shapely (every coordinate "
              "read back), compute_geometric_features and get_geometry_point at all eleven positions are recorded as exact integers / "
              "limb numbers and judged by TLC. Bounded-exhaustive plus random geometries on a 1000 x 5000 lattice."),
     "note": ("trusted: TLC, the binder checks/c05.py + vt/geom.py (encoders), exact float arithmetic on dyadic units; geometries are "
